@@ -27,7 +27,7 @@ _rest = [(v, m) for v in T.VERSIONS for m in T.MSGS[v] if (v, m) not in STRUCTS 
          all(n in T.SEGS[v] and T.seg_children(v, n) is not None for n in B.structure_names(T.LIBS[v].MESSAGES[m]))]
 STRUCTS += _random.Random(1800 + __import__('vlib.chglue', fromlist=['SEED']).SEED).sample(_rest, 120 if THOROUGH else 30)
 NS = len(STRUCTS)
-EDITS = ['identity', 'tighten', 'require', 'forbid', 'retype']
+EDITS = ['identity', 'tighten', 'require', 'forbid', 'retype', 'retype-in-group']
 NE = len(EDITS)
 PATHS = ['parse', 'traversal', 'add_helpers']
 NPATHS = len(PATHS)
@@ -71,6 +71,27 @@ def make_profile(v, m, edit, t):
         else:
             del top[k]
         return {m: (ref[0], tuple(top))}, c[0]
+    if kind == 'retype-in-group':
+        # a leaf field of the first segment of a repeatable top-level group changes datatype
+        for k, c in enumerate(top):
+            if c[3] != 'GRP' or c[2][1] == 1:
+                continue
+            members = list(c[1][1])
+            if not members or members[0][3] != 'SEG' or members[0][2] != (1, 1) or not once(members[0][0]):
+                continue
+            seg = members[0]
+            fields = list(seg[1][1])
+            leafs = [q for q, f in enumerate(fields) if f[1][0] == 'leaf' and f[1][2] in ('ST', 'NM')]
+            if not leafs:
+                continue
+            q = leafs[t % len(leafs)]
+            f = fields[q]
+            new_dt = 'NM' if f[1][2] == 'ST' else 'ST'
+            fields[q] = (f[0], (f[1][0], f[1][1], new_dt) + tuple(f[1][3:]), f[2], f[3])
+            members[0] = (seg[0], (seg[1][0], tuple(fields)), seg[2], seg[3])
+            top[k] = (c[0], (c[1][0], tuple(members)), c[2], c[3])
+            return {m: (ref[0], tuple(top))}, (c[0], seg[0], f[0], new_dt, f[1][2], [B.flatten(B.message_nodes(c[1], 'required', False))])
+        return None, None
     # retype: first top-level segment (not MSH) having an ST / NM leaf field
     for k, c in enumerate(top):
         if c[3] != 'SEG' or c[0] == 'MSH' or not once(c[0]):
@@ -151,6 +172,41 @@ def check(si, edit, t, path, trace=None):
     base_errors = _report(build(v, m, 0, None, []))[1]
     if any(e.startswith('Invalid children detected for <Message') or e.startswith('Missing required child %s.' % m) for e in base_errors):
         return True      # the reference builder cannot make a standard-conforming instance of this structure: nothing to compare
+    if kind == 'retype-in-group':
+        if path != 0:
+            return True         # groups are created by the parser
+        grp, seg, fld, new_dt, old_dt, (names,) = info
+        one = [B.segment_text(v, n, 'required') if T.seg_children(v, n) else n for n in names]
+        # message with the required children and TWO repetitions of the group
+        base_lines = B.message_text(v, m, 'required').split('\r')
+        present = [ln[:3] for ln in base_lines]
+        if names[0] in present:
+            q = present.index(names[0])
+            lines = base_lines[:q + len(names)] + one + base_lines[q + len(names):]
+        else:
+            order = B.structure_names(std(v, m))
+            later = order[order.index(names[0]) + 1:]
+            pos = len(base_lines)
+            for q, have in enumerate(base_lines[1:], 1):
+                if have[:3] in later and have[:3] not in names:
+                    pos = q
+                    break
+            lines = base_lines[:pos] + one + one + base_lines[pos:]
+        text = '\r'.join(lines)
+        a = parse_message(text, validation_level=2, message_profile=profile)
+        b = parse_message(text, validation_level=2)
+        ga, gb = getattr(a, grp.lower()), getattr(b, grp.lower())
+        ok = len(ga) == 2 and len(gb) == 2
+        got = []
+        for rep in range(min(len(ga), 2)):
+            fa = getattr(getattr(ga[rep], seg.lower()), fld.lower())
+            fb = getattr(getattr(gb[rep], seg.lower()), fld.lower())
+            got.append((fa.datatype, fb.datatype))
+            ok = ok and fa.datatype == new_dt and fb.datatype == old_dt
+        note.append('%s.%s.%s in two repetitions: (with profile, without) = %r ; expected (%r, %r) twice' % (grp, seg, fld, got, new_dt, old_dt))
+        if trace is not None:
+            trace.append('%s %s edit=%s t=%d\n  %s' % (v, m, kind, t, '\n  '.join(note)))
+        return ok
     if kind == 'identity':
         a = build(v, m, path, profile, [])
         b = build(v, m, path, None, [])
